@@ -1525,6 +1525,15 @@ pub fn run(e: &Ex, it: &Interp) -> MOut {
 		Err(e) => MOut::Err(e),
 	}
 }
+/// evaluate and manifest as minified JSON, without the command line's implicit call of a top-level function
+pub fn run_expr(e: &Ex, it: &Interp) -> MOut {
+	let c = lower(e);
+	let env = it.root_env();
+	match it.eval(&env, &c) {
+		Ok(v) => manifest_out(it, &v),
+		Err(e) => MOut::Err(e),
+	}
+}
 pub fn manifest_out(it: &Interp, v: &V) -> MOut {
 	let mut out = String::new();
 	match it.manifest(v, &mut out, false) {
